@@ -23,6 +23,8 @@ static std::vector<pp::Call> make_calls() {
   add("escape_url(\"\\xFF/\", true)", "escape_url", [] { return escape_url(std::string("\xFF/"), true); });
   add("escape_controls(\"a\\n\\x01\\xC3\\xA9\", true)", "escape_controls", [] { return escape_controls(std::string("a\n\x01\xC3\xA9"), true); });
   add("escape_quotes(\"say \\\"hi\\\"\\t\")", "escape_quotes", [] { return escape_quotes(std::string("say \"hi\"\t")); });
+  add("escape_quotes(\"\\x01\\x02\\x7f\")", "escape_quotes", [] { return escape_quotes(std::string("\x01\x02\x7f")); });
+  add("escape_controls(\"\\x02\\x1f\\xff\", false)", "escape_controls", [] { return escape_controls(std::string("\x02\x1f\xff"), false); });
   add("render_netloc(\"host\", 8080)", "render_netloc", [] { return render_netloc("host", 8080); });
   add("render_netloc(\"\", 65535)", "render_netloc", [] { return render_netloc("", 65535); });
   add("parse_netloc(\"a.b:443\")", "parse_netloc", [] { auto p = parse_netloc("a.b:443"); return p.first + "|" + std::to_string(p.second); });
@@ -33,7 +35,7 @@ static std::vector<pp::Call> make_calls() {
 VF_SECTION(concurrent_pairs, 16, 16, 300) {
   std::vector<pp::Call> calls = make_calls();
   pp::run_pairs(r, calls, r.thorough() ? 400 : 150, r.thorough() ? 150 : 0);
-  r.bound = "every unordered pair (and every call with itself) of 15 base64 (both alphabets, accepted and rejected) / rot13 / escape_* / netloc calls run concurrently: every schedule with <= 2 preemptions for same-function pairs with <= 150 (thorough 400) scheduling points per call (thorough: cross pairs <= 150 too), <= 1 preemption otherwise; basic-block granularity of Encoding.cc, Strings.cc, Network.cc";
+  r.bound = "every unordered pair (and every call with itself) of 17 base64 (both alphabets, accepted and rejected) / rot13 / escape_* / netloc calls run concurrently: every schedule with <= 2 preemptions for same-function pairs with <= 150 (thorough 400) scheduling points per call (thorough: cross pairs <= 150 too), <= 1 preemption otherwise; basic-block granularity of Encoding.cc, Strings.cc, Network.cc";
 }
 
 // First calls: each call with itself and with the next call of the same function (thorough: every same-function pair),
